@@ -675,6 +675,15 @@ class Unit:
             edits.append((bo + 1, 0, [('\n', ('gen', None, 0))] + [(t + '\n', ('vspec', c.prelude.file, no)) for t, no in c.prelude.lines]))
         if c and c.epilogue:
             edits.append((be, 0, [('\n', ('gen', None, 0))] + [(t + '\n', ('vspec', c.epilogue.file, no)) for t, no in c.epilogue.lines]))
+            # the proof hints of an @epilogue belong to every exit: an early `return ..;` statement gets a copy in front of it
+            for mo_ in re.finditer(r'\breturn\b', m[bo + 1:be]):
+                k_ = bo + 1 + mo_.start()
+                ls_ = m.rfind('\n', 0, k_) + 1
+                semi_ = m.find(';', k_)
+                if m[ls_:k_].strip() != '' or semi_ < 0 or semi_ > be or '{' in m[k_:semi_]:
+                    continue   # a `return` in expression position (match arm) cannot take a copy
+                edits.append((k_, 0, [('{\n', ('gen', None, 0))] + [(t + '\n', ('vspec', c.epilogue.file, no)) for t, no in c.epilogue.lines]))
+                edits.append((semi_ + 1, 0, [(' }', ('gen', None, 0))]))
         # loops
         loops = rustscan.find_loops(m, bo + 1, be)
         info['loops'] = len(loops)
